@@ -88,7 +88,8 @@ def step (st : St) (j : Json) : St × List String :=
       { subject := jStr j "subject", paramsPresent := jBool j "params", clientId := jStr j "client_id",
         scope := jStr j "scope", envelopeOK := jBool j "envelope_ok", submissionOK := jBool j "submission_ok",
         vps := (jArr j "vps").map parseVP, subDefId := jStr j "def_id", pex := parsePex j "pex",
-        claims := parseClaims j "claims", dpop := parseDPoP (jObj j "dpop") }
+        claims := parseClaims j "claims", dpop := parseDPoP (jObj j "dpop"),
+        nonceFault := jStr j "fault" == "nonce-get" }
     let (w', res) := issueS2S st.cfg st.w t r
     ({ st with w := w' }, [overHTTP (jBool j "http") (showResp res)])
   | "seed" =>
